@@ -215,8 +215,14 @@ class ExternalVariableCollector(NodeVisitor):
         else:
             if node.lineno in self.comments:
                 self.vardoc[node.id] = self.comments[node.lineno]
-            self.provenance[node.id] = "body"
+            # Assigning to a parameter, a closure variable (nonlocal) or a
+            # declared global does not make it a variable of the body
+            self.provenance.setdefault(node.id, "body")
             self.assigned.add(node.id)
+
+    def visit_Global(self, node):
+        for name in node.names:
+            self.provenance[name] = "external"
 
     def visit_ExceptHandler(self, node):
         if node.name is not None:
